@@ -52,7 +52,8 @@ package xmldsig
 //@   modifies nothing
 //@
 //@ func Verify
-//@   property C19 C02
+//@   property C19 C02 C11
+//@   requires @there_is_an_element_to_look_at root != nil
 //@   ghost removed bool = false
 //@   ghost canons int = 0
 //@   ghost siDigest []byte = nil
